@@ -102,6 +102,59 @@ def gen_problem(rng, tier):
     return out
 
 
+def _grown_blocks(rng, h, w, cells, max_size):
+    """Random division of `cells` into orthogonally connected blocks of at most `max_size` cells (grown one after the other
+    from a random free cell); returns {cell: block index}."""
+    free = set(cells)
+    owner = {}
+    order = list(cells)
+    rng.shuffle(order)
+    k = 0
+    for c in order:
+        if c not in free:
+            continue
+        size = rng.randint(1, max_size)
+        block = [c]
+        free.discard(c)
+        while len(block) < size:
+            nb = [(y + dy, x + dx) for (y, x) in block for dy, dx in ((1, 0), (-1, 0), (0, 1), (0, -1)) if (y + dy, x + dx) in free]
+            if not nb:
+                break
+            q = rng.choice(nb)
+            free.discard(q)
+            block.append(q)
+        for q in block:
+            owner[q] = k
+        k += 1
+    return owner
+
+
+def extra_program_problems(rng):
+    """Larger boards for the program correspondence only (nothing is enumerated there): one non-square medium board and two
+    with more than 256 cells (a tall and a wide one).  The numbers are read off a random division into blocks of at most
+    nine cells (a fair share shown, some on the edge and in the corners by sheer number), with the perturbations and the
+    `checkered` variant of the small boards."""
+    from . import _loop
+    return [_gen_large(rng, h, w) for h, w in _loop.big_shapes(rng)]
+
+
+def _gen_large(rng, h, w):
+    n = h * w
+    cells = [(y, x) for y in range(h) for x in range(w)]
+    owner = _grown_blocks(rng, h, w, cells, rng.choice([5, 9]))
+    size = {}
+    for c in cells:
+        size[owner[c]] = size.get(owner[c], 0) + 1
+    keep = rng.choice([0.2, 0.4, 0.7])
+    pb = [[size[owner[(y, x)]] if rng.random() < keep else 0 for x in range(w)] for y in range(h)]
+    for _ in range(rng.randint(0, 3)):
+        pb[rng.randrange(h)][rng.randrange(w)] = rng.choice([1, 2, 12, n, n + 1, -1])
+    out = {"height": h, "width": w, "problem": pb}
+    if rng.random() < 0.5:
+        out["checkered"] = rng.random() < 0.8
+    return out
+
+
 def solve_args(problem):
     kw = {}
     if "checkered" in problem:
